@@ -31,6 +31,12 @@ CLAIMS['C18'] = dict(cat='proof', ref='DESIGN.md 5/C18',
 CLAIMS['C16'] = dict(cat='proof', ref='DESIGN.md 5/C16',
    text='_gaussian/_lorentzian executed symbolically (both sides of the 1e-15 clamp): closed forms A/(sqrt(2pi)s) exp(-(x-mu)^2/(2s^2)) and (A/pi) s/((x-mu)^2+s^2) with unit(A)/unit(x), frame-clean; pseudo-Voigt = alpha L(s) + (1-alpha) G(s/sqrt(2 ln 2)) against callee contracts; polynomial = sum a_i x^i for degree 1..6 (complete); composite = sum of parts with exact parameter split; FWHM factors; symmetry, half-maximum at loc +- FWHM/2, reduction of the normalisation to the two classical integrals are lemmas. Prefix handling and guess(): bounded on the real classes.',
    note='Trusted: scipp model, symbolic math.pi/sqrt/log(2), function congruence for exp, exp(-ln2)=1/2. Assumed (classical, not machine-checked here): int exp(-t^2/2)=sqrt(2pi), int 1/(1+t^2)=pi. Prefix strings: finite adversarial set only.')
+CLAIMS['C12'] = dict(cat='proof', ref='DESIGN.md 5/C12',
+   text='The real _PixWrap.write is re-parsed on every run, its chunk loop cut mechanically and the inductive invariant (bytes = 12 + 36*emitted, emitted = min(offset, N), every chunk continues the output in order with slice length = chunk rows) discharged by z3 for symbolic pixel count and chunk size; bytes written = declared size for the pixel and histogram placeholders; block-allocation-table positions (position_0 = offset + len(table), position_k+1 = position_k + size_k, patched fields, size field) for symbolic block sizes; create() writes header (26 bytes, horace 4.0), table and every block at its declared position with its declared size, ending at end-of-file; declared string length = UTF-8 bytes written; byte-order deduction exhaustively for 1..65535 in both orders; canonical order a function of the block set. Bounded: real files decoded by an independent walker.',
+   note='Trusted: token model of the two-line LowLevelSqw wrappers (stdlib/numpy byte counts), loop-cutting transformation, z3 LIA; sizes fit their u32/u64 fields; contents of regular blocks decode within their extent: bounded stand-in (independent decoder on real files).')
+CLAIMS['C13'] = dict(cat='proof', ref='DESIGN.md 5/C13',
+   text='Ghost row/unit tracking through the cut chunk loop: column k of every chunk holds row k of the input, converted to its declared unit (incompatible units raise), pixels contiguous and in order, staging buffer float32; row selection and order of _split_pix_rows; pixel metadata (N, min/max per row in row unit); experiment record: 1-based run id, meV, radians, angular_is_degree False, one record per run in order; one shared instrument/sample object with n indices written 1-based; IR-level round trip parse(serialize(x)) for sample and projection: same SI value and same physical dimension for every unit-bearing field. Bounded: real files compared through the independent decoder and the package reader. One open known finding (reader labels alatt 1/angstrom).',
+   note='Trusted: mock rows/buffer/token sink, scipp model, numpy float32 assignment rounds once; byte-level inverse rests on C12 and the bounded decoder. Known finding listed in known_findings.json (not counted as discharged).')
 NA = {}
 checks = []
 for p in props:
